@@ -1029,7 +1029,7 @@ func haInstallHooks() {
 			if x.Err != nil {
 				// production's failure path (pseudonodeVotesTask.execute returning on a persistence error) does not
 				// return its coservice token; give it back here so that quiescence detection stays exact
-				inc.monitor.dec(pseudonodeCoserviceType)
+				haReturnToken(inc.monitor, pseudonodeCoserviceType)
 			}
 			if inc.isDead() {
 				return
@@ -1055,6 +1055,19 @@ func haInstallHooks() {
 		verifhook.SetObserver(haHookVotesB, votes(haHookVotesB))
 		verifhook.SetObserver(haHookVotesA, votes(haHookVotesA))
 	})
+}
+
+// haReturnToken decrements a coservice counter if (and only if) it is positive.
+func haReturnToken(m *coserviceMonitor, t coserviceType) {
+	m.Mutex.Lock()
+	defer m.Mutex.Unlock()
+	if m.c == nil || m.c[t] == 0 {
+		return
+	}
+	m.c[t]--
+	if m.coserviceListener != nil {
+		m.coserviceListener.dec(m.sum(), m.c)
+	}
 }
 
 // haBreakDB makes the next insert into the crash DB fail without losing the stored row
